@@ -16,7 +16,7 @@ import (
 )
 
 type op struct {
-	Kind  string `json:"k"` // enter | exit
+	Kind  string `json:"k"` // enter | exit | enter-faulty (a rule-check slot placed before the isolation slot panics: the request is passed, uncounted)
 	Res   int    `json:"r"`
 	Batch uint32 `json:"b,omitempty"`
 	Pick  int    `json:"pick,omitempty"` // which live entry to exit (index into the live list modulo len)
@@ -45,7 +45,9 @@ func genCase(rng *rand.Rand) *caseDesc {
 	n := 20 + rng.Intn(100)
 	for i := 0; i < n; i++ {
 		o := op{Res: rng.Intn(nres)}
-		if rng.Intn(5) < 3 {
+		if rng.Intn(14) == 0 {
+			o.Kind = "enter-faulty"
+		} else if rng.Intn(5) < 3 {
 			o.Kind = "enter"
 			N := uint32(2)
 			if ts := c.Thr[o.Res]; len(ts) > 0 {
@@ -62,9 +64,23 @@ func genCase(rng *rand.Rand) *caseDesc {
 }
 
 type live struct {
-	e   *base.SentinelEntry
-	res int
+	e      *base.SentinelEntry
+	res    int
+	faulty bool
 }
+
+// boomSlot panics for requests carrying the argument "boom" (it runs before the isolation slot)
+type boomSlot struct{}
+
+func (boomSlot) Order() uint32 { return 0 }
+func (boomSlot) Check(ctx *base.EntryContext) *base.TokenResult {
+	if len(ctx.Input.Args) > 0 && ctx.Input.Args[0] == "boom" {
+		panic("boom")
+	}
+	return nil
+}
+
+var faultyChain *base.SlotChain
 
 func runCase(idx int, c *caseDesc) {
 	caseNo++
@@ -103,12 +119,31 @@ func runCase(idx int, c *caseDesc) {
 			l := lives[k]
 			lives = append(lives[:k], lives[k+1:]...)
 			l.e.Exit()
-			inflight[l.res]--
+			if !l.faulty {
+				inflight[l.res]--
+			}
 			if got := stat.GetResourceNode(names[l.res]).CurrentConcurrency(); int64(got) != int64(inflight[l.res]) {
 				c.FailAt = i
 				run.Violation("C04/gauge-after-exit", fmt.Sprintf("op %d: concurrency gauge %d after exit, model %d", i, got, inflight[l.res]), c)
 				return
 			}
+		case "enter-faulty":
+			// rule evaluation panics inside the chain: the request is passed without being counted, and its exit
+			// releases nothing - the in-flight figure (and so the capacity seen by everybody else) is unchanged
+			en, be := sentinel.Entry(names[o.Res], sentinel.WithSlotChain(faultyChain), sentinel.WithArgs("boom"))
+			if en == nil || be != nil {
+				c.FailAt = i
+				run.Violation("C04/faulty-request-not-passed", fmt.Sprintf("op %d: a request whose rule evaluation panicked was not passed: %v", i, be), c)
+				return
+			}
+			if n := stat.GetResourceNode(names[o.Res]); n != nil {
+				if got := n.CurrentConcurrency(); int64(got) != int64(inflight[o.Res]) {
+					c.FailAt = i
+					run.Violation("C04/gauge-after-faulty-request", fmt.Sprintf("op %d: gauge %d after a request passed because of an internal panic, model %d", i, got, inflight[o.Res]), c)
+					return
+				}
+			}
+			lives = append(lives, live{en, o.Res, true})
 		case "enter":
 			// expected: first rule (list order) with inflight + b > N blocks
 			blockIdx := -1
@@ -168,7 +203,7 @@ func runCase(idx int, c *caseDesc) {
 					return
 				}
 				inflight[o.Res]++
-				lives = append(lives, live{en, o.Res})
+				lives = append(lives, live{en, o.Res, false})
 			}
 		}
 	}
@@ -182,9 +217,11 @@ func main() {
 	sx.Quiet()
 	run = vk.Start("C04", "seq")
 	defer run.Finish()
-	run.Rule("case = (1-3 resources each with 0-3 isolation rules, thresholds incl. 0, 2^31, 2^32-1; 20-120 enter/exit ops, random exit order, batches from {0,1,2,N-1,N,N+1,2^31,2^32-1}); every decision, triggered rule/value and the gauge are compared with a 64-bit semaphore model; non-trivial = trace has a pass and a block; distinct by (trace, thresholds).")
+	run.Rule("case = (1-3 resources each with 0-3 isolation rules, thresholds incl. 0, 2^31, 2^32-1; 20-120 enter/exit ops (some entries passed because a rule-check slot panicked: uncounted), random exit order, batches from {0,1,2,N-1,N,N+1,2^31,2^32-1}); every decision, triggered rule/value and the gauge are compared with a 64-bit semaphore model; non-trivial = trace has a pass and a block; distinct by (trace, thresholds).")
 	run.Assume("sequential callers (GOMAXPROCS=1); the k-concurrent clause is decided by the coop engine")
 	clk = vclock.New(1700000000000)
+	faultyChain = sentinel.BuildDefaultSlotChain()
+	faultyChain.AddRuleCheckSlot(boomSlot{})
 	n := run.N(500, 20000)
 	for i := 0; i < n; i++ {
 		if run.Skip(i) {
